@@ -33,6 +33,8 @@ inductive Op
   | invH | invU
   | expmH                  -- exp A, Hermitian flag
   | copyH | copyU          -- copy / change of storage format / permute by a permutation similarity
+  | saddRealH              -- ±A + r·1, r real (a number next to a square object), Hermitian flag
+  | saddImagH              -- ±A + z·1, z not real, Hermitian flag
 deriving DecidableEq, Repr
 
 open Op in
@@ -80,6 +82,9 @@ def maxRule : Op → Tri → Tri → Tri
   | expmH, _, _ => none
   | copyH, a, _ => a
   | copyU, a, _ => a
+  | saddRealH, a, _ => a
+  | saddImagH, some true, _ => some false
+  | saddImagH, _, _ => none
 
 /-- a propagation rule is acceptable iff every claim it makes is the strongest sound one -/
 def ruleAllowed (op : Op) (r : Tri → Tri → Tri) : Bool :=
